@@ -204,7 +204,7 @@ func recipeEquivalent(key, got, want string) bool {
 	// guard sets: every specified guard must be there; an additional refusal is accepted only if
 	// it is one the format itself implies (listed in impliedGuards, from the specification:
 	// a wrapped file key is 16 bytes + a 16-byte tag)
-	if strings.HasSuffix(key, ".guards") {
+	if strings.HasSuffix(key, ".guards") || impliedGuards[key] != nil {
 		have := map[string]bool{}
 		for _, g := range strings.Split(got, " ; ") {
 			have[g] = true
@@ -416,6 +416,9 @@ var impliedGuards = map[string]map[string]bool{
 	"ScryptIdentity.unwrap.guards":  {`len(Field(P1.Body)) == 32`: true},
 	"X25519Identity.unwrap.guards":  {`len(Field(P1.Body)) == 32`: true},
 	"Ed25519Identity.unwrap.guards": {`len(Field(P1.Body)) == 32`: true},
+	// native keys are 32 bytes (the constructors refuse any other length themselves)
+	"ParseX25519Identity.hrp":  {`len(bech32.Decode(P1).1) == 32`: true},
+	"ParseX25519Recipient.hrp": {`len(bech32.Decode(P1).1) == 32`: true},
 	// an RSA-OAEP ciphertext is exactly as long as the modulus
 	"RSAIdentity.unwrap.guards": {`len(Field(P1.Body)) == (*rsa.PublicKey).Size(Field(Field(Recv.k).PublicKey))`: true},
 }
